@@ -45,7 +45,7 @@ func prepareRT(c map[string]any) *rtJob {
 		if err != nil {
 			panic("harness: bad hex")
 		}
-		t := ggml.Tensor{Name: hx.Unhex(m["name"]), Kind: uint32(hx.Int(m["kind"])), Shape: shape, WriterTo: &idxReader{bytes.NewReader(data), i}}
+		t := ggml.Tensor{Name: hx.Unhex(m["name"]), Kind: uint32(hx.Int(m["kind"])), Shape: shape, WriterTo: &idxReader{Reader: bytes.NewReader(data), idx: i, lie: lieOf(m)}}
 		job.ts = append(job.ts, t)
 		job.blocks = append(job.blocks, ggml.VerifBlock(t))
 	}
@@ -189,4 +189,9 @@ func runConcurrent(c map[string]any) map[string]any {
 		outs[i] = jobs[i].result(cases[i])
 	}
 	return map[string]any{"writers": outs}
+}
+
+func lieOf(m map[string]any) string {
+	s, _ := m["lie"].(string)
+	return s
 }
